@@ -54,6 +54,7 @@ type rscope struct {
 type resolver struct {
 	u   *Unit
 	cur *rscope
+	sig string // parameter type list of the function being declared (scope events)
 }
 
 func (u *Unit) resolve() {
@@ -68,10 +69,18 @@ func (u *Unit) resolve() {
 		}
 	}()
 	r.cur = &rscope{names: map[string]int{}, types: map[string]int{}}
+	r.ev(xrt.ScopeEv{Op: "open", Kind: "unit"})
 	for _, n := range u.Nodes {
 		r.node(n)
 	}
+	r.ev(xrt.ScopeEv{Op: "close"})
 }
+
+// ScopeEvents is the declaration / reference event stream recorded by the
+// resolver (consumed by spec/Scopes.tla, property C16).
+func (u *Unit) ScopeEvents() []xrt.ScopeEv { u.resolve(); return u.sev }
+
+func (r *resolver) ev(e xrt.ScopeEv) { r.u.sev = append(r.u.sev, e) }
 
 // Decls lists every declaration in source order.
 func (u *Unit) Decls() []Decl { u.resolve(); return u.decls }
@@ -85,8 +94,9 @@ func (u *Unit) Problems() []string { u.resolve(); return u.problems }
 
 func (r *resolver) push() {
 	r.cur = &rscope{names: map[string]int{}, types: map[string]int{}, parent: r.cur, depth: r.cur.depth + 1}
+	r.ev(xrt.ScopeEv{Op: "open", Kind: "body"})
 }
-func (r *resolver) pop() { r.cur = r.cur.parent }
+func (r *resolver) pop() { r.cur = r.cur.parent; r.ev(xrt.ScopeEv{Op: "close"}) }
 
 func typeString(ts TypeSpec) string {
 	s := ts.Name
@@ -104,6 +114,7 @@ func typeString(ts TypeSpec) string {
 
 func (r *resolver) add(kind, name, typ string, pos Pos, parent int, scope int) int {
 	r.u.decls = append(r.u.decls, Decl{Kind: kind, Name: name, Type: typ, Line: pos.Line, Col: pos.Col, Scope: scope, Parent: parent})
+	r.ev(xrt.ScopeEv{Op: "decl", Kind: kind, Name: name, Sig: r.sig, Line: pos.Line, Col: pos.Col, Decl: len(r.u.decls) - 1})
 	return len(r.u.decls) - 1
 }
 
@@ -149,6 +160,7 @@ func (r *resolver) lookupType(name string) int {
 
 func (r *resolver) ref(kind, name string, pos Pos, decl int, builtin bool) {
 	r.u.refs = append(r.u.refs, Ref{Name: name, Kind: kind, Line: pos.Line, Col: pos.Col, Decl: decl, Builtin: builtin})
+	r.ev(xrt.ScopeEv{Op: "ref", Kind: kind, Name: name, Line: pos.Line, Col: pos.Col, Decl: decl, Builtin: builtin})
 	if decl < 0 && !builtin {
 		r.u.problems = append(r.u.problems, fmt.Sprintf("%d:%d: %s reference %s resolves to no declaration", pos.Line, pos.Col, kind, name))
 	}
@@ -185,6 +197,7 @@ func (r *resolver) structDecl(d *StructDecl) {
 		r.u.problems = append(r.u.problems, fmt.Sprintf("%d:%d: struct %s has the same name as a variable or function in the same scope", d.Pos.Line, d.Pos.Col, d.Name))
 	}
 	seen := map[string]bool{}
+	r.ev(xrt.ScopeEv{Op: "open", Kind: "struct"})
 	for _, f := range d.Fields {
 		r.typeRef(f.Type)
 		r.add("struct member", f.Name, typeString(f.Type), f.Pos, idx, r.cur.depth+1)
@@ -193,6 +206,7 @@ func (r *resolver) structDecl(d *StructDecl) {
 		}
 		seen[f.Name] = true
 	}
+	r.ev(xrt.ScopeEv{Op: "close"})
 	// the struct name is in scope after its definition
 	r.cur.types[d.Name] = idx
 }
@@ -222,6 +236,9 @@ func (r *resolver) node(n Node) {
 		r.quals(d.Quals)
 		bidx := r.add("block", d.Name, "", d.Pos, -1, r.cur.depth)
 		seen := map[string]bool{}
+		if d.Instance != "" {
+			r.ev(xrt.ScopeEv{Op: "open", Kind: "block"})
+		}
 		for _, mem := range d.Members {
 			r.quals(mem.Quals)
 			r.typeRef(mem.Type)
@@ -237,6 +254,7 @@ func (r *resolver) node(n Node) {
 			}
 		}
 		if d.Instance != "" {
+			r.ev(xrt.ScopeEv{Op: "close"})
 			for _, dim := range d.InstanceDims {
 				if dim != nil {
 					r.expr(dim)
@@ -246,7 +264,16 @@ func (r *resolver) node(n Node) {
 		}
 	case *FuncDecl:
 		r.typeRef(d.Ret)
+		r.sig = "("
+		for i, p := range d.Params {
+			if i > 0 {
+				r.sig += ","
+			}
+			r.sig += typeString(p.Type)
+		}
+		r.sig += ")"
 		fidx := r.declareName("function", d.Name, typeString(d.Ret), d.Pos, -1)
+		r.sig = ""
 		r.push()
 		for _, p := range d.Params {
 			r.quals(p.Quals)
@@ -395,6 +422,7 @@ func (r *resolver) expr(e Expr) {
 		r.expr(e.I)
 	case *FieldExpr:
 		r.expr(e.X)
+		r.ev(xrt.ScopeEv{Op: "field", Name: e.Name, Line: e.Pos.Line, Col: e.Pos.Col, Decl: -1})
 	case *MethodExpr:
 		r.expr(e.X)
 	}
